@@ -543,10 +543,24 @@ def gen_aux(tier, rng):
         yield ('aux_random', 1, [files, rng.choice(['top.aux', 'top.aux', 'top.aux', 'sub.aux', 'missing.aux'])])
 
 def split_db(rng, db):
+    if len(db) >= 3 and rng.random() < 0.2:
+        i, j = sorted(rng.sample(range(1, len(db)), 2))
+        return [db[:i], db[i:j], db[j:]]
     if len(db) >= 2 and rng.random() < 0.4:
         k = rng.randint(1, len(db) - 1)
         return [db[:k], db[k:]]
     return [db]
+
+DBNAMES = ['zeta', 'mid', 'alpha', 'beta', 'db0', 'B2']
+def db_names(rng, n):
+    """n distinct database names, in an order that is (mostly) not the alphabetical one"""
+    return rng.sample(DBNAMES, n)
+def data_list(rng, names):
+    """the \\bibdata list: the names in order, now and then one of them twice"""
+    d = list(names)
+    if rng.random() < 0.15:
+        d.insert(rng.randint(0, len(d)), rng.choice(names))
+    return d
 
 def sched_style(rng):
     """a random schedule of ITERATE / REVERSE / SORT commands over a fixed set of functions"""
@@ -569,7 +583,7 @@ def sched_style(rng):
     return norm([U._entry(), cmd('INTEGERS', [Id('n')]), g, inc, show] + pres + [cmd('READ')] + steps)
 
 def gen_engine(tier, rng):
-    n = 2500 if tier == 'quick' else 15000
+    n = 2200 if tier == 'quick' else 15000
     for i in range(n):
         style = rng.choice(SYN_NAMES + ['dump', 'dump', 'bytitle', 'bytitle', 'sched', 'sched', 'sched', 'sched'])
         other = rng.choice([s for s in SYN_NAMES if s != style])
@@ -582,7 +596,8 @@ def gen_engine(tier, rng):
         parts = split_db(rng, db)
         cites = rand_cites(rng)
         m = rng.choice([2, 2, 1, 0, 3])
-        names = ['db%d' % k for k in range(len(parts))]
+        names = db_names(rng, len(parts))
+        data = data_list(rng, names)
         files = [bst_file(style), bst_file(other)]
         files += [[nm + U.SUFFIX[fmt], 2, [fmt, p]] for nm, p in zip(names, parts)]
         if fmt == 1 or rng.random() < 0.3:   # a same-named database in the other format, with other content
@@ -594,20 +609,20 @@ def gen_engine(tier, rng):
         if mode == 0:
             auxname = rng.choice(['doc.aux', 'doc.aux', 'doc', 'my.doc.aux', '.aux', 'doc.tex.aux'])
             so = [other] if rng.random() < 0.4 else []
-            lines = aux_lines(cites, style, names, rng)
+            lines = aux_lines(cites, style, data, rng)
             if rng.random() < 0.06: lines.insert(rng.randint(0, len(lines)), '\\bibstyle{%s}' % other)     # a second \bibstyle: reported, the first one stays
             if rng.random() < 0.04: lines.insert(rng.randint(0, len(lines)), '\\bibdata{nofile}')
             if rng.random() < 0.08: lines = [l for l in lines if not l.startswith('\\bibstyle')]
             if rng.random() < 0.05: lines = [l for l in lines if not l.startswith('\\bibdata')]
-            if rng.random() < 0.06: names_bad = names + ['nofile']; lines = aux_lines(cites, style, names_bad, rng)
-            if rng.random() < 0.05: lines = aux_lines(cites, 'nostyle', names, rng)
+            if rng.random() < 0.06: names_bad = data + ['nofile']; lines = aux_lines(cites, style, names_bad, rng)
+            if rng.random() < 0.05: lines = aux_lines(cites, 'nostyle', data, rng)
             files.append([auxname, 0, lines])
             yield ('engine_aux', 2, [files, [0, auxname, so, fo, m]])
         elif mode == 1:
             co = [cites] if rng.random() < 0.85 else []
             outn = rng.choice([[], [], ['out'], ['out.txt'], ['']])
             add = rng.choice([0, 0, 1]) if outn else 0
-            srcs = [nm + U.SUFFIX[fmt] for nm in names] + (['nofile.bib'] if rng.random() < 0.05 else [])
+            srcs = [nm + U.SUFFIX[fmt] for nm in data] + (['nofile.bib'] if rng.random() < 0.05 else [])
             yield ('engine_files', 2, [files, [1, srcs, style if rng.random() < 0.95 else 'nostyle', co, fo, m, outn, add]])
         elif mode == 2:
             co = [cites] if rng.random() < 0.85 else []
@@ -615,6 +630,30 @@ def gen_engine(tier, rng):
         else:
             co = [cites] if rng.random() < 0.85 else []
             yield ('engine_file', 2, [files, [3, names[0] + U.SUFFIX[fmt], style, co, fo, m]])
+
+def gen_aux_order(tier, rng):
+    """.aux files naming 2-3 databases in NON-alphabetical order (now and then one twice), the same key in several of
+    them, citations with '*', order-revealing styles: the files must be read in the order the .aux file names them"""
+    for i in range(260 if tier == 'quick' else 2500):
+        n = rng.choice([2, 2, 3])
+        while True:
+            names = db_names(rng, n)
+            if names != sorted(names):
+                break
+        shared = rng.choice(KEYS)
+        parts = []
+        for k in range(n):
+            p = rand_db(rng, nmax=3, dups=False)
+            if rng.random() < 0.6:      # the same key in several files, with different contents
+                p = [e for e in p if e[0].lower() != shared.lower()]
+                p.insert(rng.randint(0, len(p)), [shared, rng.choice(TYPES), [['title', 'from %s' % names[k]]]])
+            parts.append(p)
+        data = data_list(rng, names)
+        style = rng.choice(['dump', 'dump', 'rev', 'bytitle', 'types', 'count'])
+        cites = rng.choice([['*'], ['*'], [shared, '*'], ['*', shared.upper()], rand_cites(rng)])
+        files = [bst_file(style)] + [[nm + '.bib', 2, [0, p]] for nm, p in zip(names, parts)]
+        files.append(['doc.aux', 0, aux_lines(cites, style, data, rng)])
+        yield ('engine_aux_file_order', 2, [files, [0, 'doc.aux', [], [], rng.choice([2, 1])]])
 
 # ---- realistic databases for the shipped styles
 AUTHORS = ['Knuth, Donald E.', 'Leslie Lamport', 'A. U. Thor and B. Other', 'de la Vall{\\\'e}e Poussin, Charles', 'Zed, Z. and Young, Y. and Xu, X.', 'Aamport, L. A.', 'Knuth, Donald E. and others']
@@ -664,7 +703,7 @@ def real_cites(rng, db, star=True):
 
 def gen_real(tier, rng):
     styles = U.STYLES_QUICK if tier == 'quick' else U.STYLES_THOROUGH
-    n = 130 if tier == 'quick' else 400
+    n = 110 if tier == 'quick' else 400
     for style in styles:
         for i in range(n):
             db = real_db(rng)
@@ -712,7 +751,7 @@ def variant(rng, db, cites, kind):
 
 def gen_pairs(tier, rng):
     styles = ['dump', 'bytitle', 'plain', 'unsrt', 'alpha'] + ([] if tier == 'quick' else ['unsrt_mixed', 'IEEEtran', 'apacite', 'jurabib'])
-    n = 110 if tier == 'quick' else 300
+    n = 95 if tier == 'quick' else 300
     for style in styles:
         for i in range(n):
             kind = i % 2
@@ -740,13 +779,19 @@ PINNED = [
                    [0, 'doc.aux', ['rev'], [1], 2]]),
     ('pinned', 2, [[bst_file('dump'), bst_file('rev'), ['db0.bib', 2, [0, [['a', 'book', [['title', 'T']]], ['b', 'misc', []]]]],
                     ['doc.aux', 0, aux_lines(['a', 'b'], 'dump', ['db0'])]], [0, 'doc.aux', ['rev'], [], 2]]),
+    # C06e: the database files are read in the order of the \\bibdata list ('b,a' -- not sorted, not de-duplicated)
+    ('pinned', 2, [[bst_file('dump'), ['b.bib', 2, [0, [['k1', 'book', [['title', 'in b']]], ['x', 'misc', []]]]],
+                    ['a.bib', 2, [0, [['k2', 'misc', []], ['k1', 'article', [['title', 'in a']]]]]],
+                    ['doc.aux', 0, aux_lines(['*'], 'dump', ['b', 'a'])]], [0, 'doc.aux', [], [], 2]]),
+    ('pinned', 2, [[bst_file('dump'), ['b.bib', 2, [0, [['k1', 'book', [['title', 'in b']]]]]], ['a.bib', 2, [0, [['k2', 'misc', []]]]],
+                    ['doc.aux', 0, aux_lines(['*'], 'dump', ['b', 'a', 'b'])]], [0, 'doc.aux', [], [], 2]]),
 ]
 
 def gen(tier, rng):
     U.base_dir()          # made here, before the worker processes are forked, removed by this process at exit
     for c in PINNED:
         yield c
-    for g in (gen_aux, gen_engine, gen_real, gen_sort, gen_pairs, gen_splitext):
+    for g in (gen_aux, gen_engine, gen_aux_order, gen_real, gen_sort, gen_pairs, gen_splitext):
         for c in g(tier, rng):
             yield c
 
@@ -851,5 +896,55 @@ def extra_checks(ck, tier, rng):
         if sname in ('plain', 'unsrt', 'alpha', 'unsrt_mixed', 'apacite') and not ok:
             pf.append((sname + '.bst', 'no longer has the shape theorem items_per_citation speaks about: ' + why, False))
     yield {'name': 'item_predicate_on_shipped_styles', 'evaluations': len(pred), 'failures': pf, 'info': pred}
+    # several database files named by one .aux file, with @string macros: a macro defined in one file is known in the files
+    # read AFTER it (one parser, one macro table) -- the files must be read in the order of the \\bibdata list.  Parsing of
+    # @string is outside the model (C01/C10), so this is oracle only: byte-for-byte against the explicit call in .aux order,
+    # the macro expanded, nothing reported, items in file order.
+    mf, mn = [], 0
+    for i in range(10 if tier == 'quick' else 60):
+        names = rng.sample(['zeta', 'mid', 'alpha', 'beta'], rng.choice([2, 3]))
+        if names == sorted(names):
+            names.reverse()
+        data = list(names) + ([names[0]] if i % 4 == 3 else [])
+        style = rng.choice(['dump', 'unsrt'])
+        with U.scratch():
+            keys = []
+            for k, nm in enumerate(names):
+                text = ''
+                if k == 0:
+                    text += '@string{jn = "Journal of Macros"}\n'
+                text += '@article{k%d%s, author = {A. Author}, title = {T%d}, journal = jn, note = jn, year = 200%d}\n' % (k, nm, k, k)
+                text += '@misc{shared, title = {from %s}, note = jn}\n' % nm
+                keys += ['k%d%s' % (k, nm)] + (['shared'] if k == 0 else [])
+                open(nm + '.bib', 'w').write(text)
+            if style == 'dump':
+                open('dump.bst', 'w').write(U.to_bst(SYN['dump'])); sty = 'dump'
+            else:
+                sty = os.path.join(U.DATA, 'unsrt')
+            open('doc.aux', 'w').write('\\relax\n\\citation{*}\n\\bibstyle{%s}\n\\bibdata{%s}\n' % (sty, ','.join(data)))
+            mn += 1
+            try:
+                with errors.capture() as cap1:
+                    want = B.format_from_files([d + '.bib' for d in data], style=sty, citations=['*'])
+                with errors.capture() as cap2:
+                    B.make_bibliography('doc.aux')
+                got = open('doc.bbl', encoding='utf-8', newline='').read()
+            except Exception as e:
+                mf.append(('\\bibdata{%s}' % ','.join(data), 'raised %r' % (e,), True)); continue
+            items = [l[1:-1] for l in got.split('\n') if l.startswith('[') and l.endswith(']')] if style == 'dump' else U.bibitems(got)
+            undefined = [str(e) for e in cap2 if 'undefined' in str(e).lower()]
+            what = None
+            if got != want:
+                what = 'doc.bbl differs from the explicit call over %r: %r vs %r' % ([d + '.bib' for d in data], got[:300], want[:300])
+            elif undefined:
+                what = 'macro of the first file unknown in a later one: %r' % undefined[:2]
+            elif items != keys:
+                what = 'items %r, expected the entries in the order the files are named: %r' % (items, keys)
+            elif got.count('Journal of Macros') < len(names):
+                what = 'the macro was not expanded in every file'
+            if what:
+                mf.append(('\\bibdata{%s} (style %s)' % (','.join(data), style), what, True))
+    yield {'name': 'aux_database_order_with_macros', 'evaluations': mn, 'failures': mf[:5],
+           'info': 'the databases of \\bibdata{...} are read in the order named (non-alphabetical, one name twice): macros of earlier files known later, first occurrence of a repeated key wins, items of \\citation{*} in file order'}
     yield {'name': 'command_line_plumbing', 'evaluations': n, 'failures': fails[:5],
            'info': 'pybtex [-s style] [-f format] [--min-crossrefs n] file[.aux] writes what format_from_files(style, format, min_crossrefs) returns'}
